@@ -13,7 +13,7 @@ if git apply --check $src/patch.diff 2>/dev/null; then git apply $src/patch.diff
 if [ $res = 0 ]; then
   t=$(/venv/bin/python -m pytest -q -p no:cacheprovider -p no:hypothesispytest 2>&1 | grep -E "passed|failed" | tail -1)
   MIASMX_ROOT=$wt /venv/bin/python $src/demo.py >/dev/null 2>&1; d1=$?
-  git diff > /tmp/confirm_$id.diff
+  git diff HEAD > /tmp/confirm_$id.diff
   echo "$id: tests: $t | demo without patch rc=$d0, with patch rc=$d1"
   if echo "$t" | grep -q "278 passed" && [ "$d0" = 0 ] && [ "$d1" = 1 ]; then
     mkdir -p /verif/seeded/$id
